@@ -19,6 +19,19 @@ check("C19", "exploration",
   "Trusts model/pool.go; eviction is exercised with tolerances (-1h / 1000h) that make the age comparison independent of elapsed time; 'eventually batched' is decided only as bounded progress after arrivals stop.",
   "runtime monitoring: online reference-model checker after every step + bounded-progress drain + Go race detector", "DESIGN.md §5 C19")
 
+check("C13", "exploration",
+  "Model-based monitoring of the real SimpleLedger: thousands of generated histories of set/add/delete/get/prefix-query/snapshot/revert/finalise/flush+commit/reopen over 3 accounts x 7 prefix-related keys with account-cache capacities of 1-3 entries; after every call getters and prefix queries are compared with a map-based reference model; failing histories are delta-debugged to a minimal witness.",
+  "Trusts model/kv.go; AddState values are 'unknown' after a revert to an older snapshot (only journaled values are promised); present-and-empty vs absent is not judged; only the 'simple' ledger (the complex/trie ledger is out of reach).",
+  "runtime monitoring: online reference-model checker (map-based) after every ledger call + Go race detector", "DESIGN.md §5 C13")
+check("C12", "exploration",
+  "State-ledger part: generated 15-30 block histories with RollbackState to every distance inside the retained window, below it, above the head, repeated and after reopen; after each rollback a separate read-only ledger over the same store (the node's view-ledger boundary) must read exactly the model state recorded when the target height was committed, refused rollbacks must leave the store byte-identical, and re-executing the recorded calls of block target+1 must reproduce its recorded root.",
+  "Trusts model/kv.go. The executor-level clause (re-executing the same blocks reproduces the same block hashes, rollbackBlocks path) is exercised by the replica workload shared with C09. Window size is the hard-coded 10.",
+  "runtime monitoring: recorded per-height reference states compared after rollback + root re-execution oracle", "DESIGN.md §5 C12")
+check("C10", "exploration",
+  "State root: one write set realised on 6 forks by different histories (order, tx split, redundant writes, reads, reverted snapshots, restore-to-original, warm/cold/tiny cache) must give one root; every single-field perturbation must change it. Three genuine deviations are recorded as known findings (account touched-but-unchanged hashed; reverted write on a new account leaves a zero account; delete of the empty-named key contributes no bytes).",
+  "Trusts sha256; un-length-prefixed concatenation ambiguity needing two coordinated changes is outside 'single-field'. Tx/receipt roots: decided by the independent Merkle recomputation of the C09 audit.",
+  "runtime monitoring: differential execution of one write set over forked ledgers + perturbation sensitivity oracle", "DESIGN.md §5 C10")
+
 ALL = [f"C{i:02d}" for i in range(1, 21)]
 REASON_PENDING = "check not built yet in this round; see DESIGN.md §5 for the planned monitor (no claim is made until the check runs clean on the unchanged tree)"
 
